@@ -1,10 +1,219 @@
 import Girc.Model.Event
+import Girc.Proofs.ParseTotalBasic
 namespace Girc.Proofs.ParseTotal
 open Girc Girc.Model
+
+def goTail (tags : Option Tags) (source : Option Source) (raw : Bytes) (i : Int) :
+    Except Fault (Option Event) := do
+  let rest ← sliceI raw i raw.length
+  let j := i + indexByteI rest SP
+  if j < i then
+    return some { tags, source, command := toUpperAscii rest, params := [] }
+  let command := toUpperAscii (← sliceI raw i j)
+  let j := j + 1
+  match ← trailerLoopGo raw j (raw.length + 1) 0 with
+  | none =>
+    return some { tags, source, command, params := fieldsSp (← sliceI raw j raw.length) }
+  | some off =>
+    let i2 := j + off
+    let mut params : List Bytes := []
+    if i2 > j then
+      params := fieldsSp (← sliceI raw j (i2 - 1))
+    let last ← sliceI raw (i2 + 1) raw.length
+    return some { tags, source, command, params := params ++ [last] }
+
+def goSrc (tags : Option Tags) (raw : Bytes) : Except Fault (Option Event) := do
+  let mut i : Int := 0
+  let mut source : Option Source := none
+  if raw ≠ [] then
+    let c ← atI raw 0
+    if c = COLON then
+      i := indexByteI raw SP
+      if i < 2 then return none
+      source := some (parseSource (← sliceI raw 1 i))
+      i := i + 1
+  goTail tags source raw i
+
+def goTop (raw0 : Bytes) : Except Fault (Option Event) := do
+  let raw := trimCRLF raw0
+  if raw.length < 2 then return none
+  let c0 ← atI raw 0
+  if c0 = AT then
+    let i := indexByteI raw SP
+    if i < 2 then return none
+    let tags := some (parseTags (← sliceI raw 1 i))
+    let raw ← sliceI raw (i + 1) raw.length
+    goSrc tags raw
+  else
+    goSrc none raw
+
+theorem parseEventGo_eq_goTop (raw0 : Bytes) : parseEventGo raw0 = goTop raw0 := by
+  rfl
+
+
+theorem goTail_eq (tags : Option Tags) (source : Option Source) (raw : Bytes) (n : Nat)
+    (hn : n ≤ raw.length) :
+    goTail tags source raw (n : Int) = .ok
+      (match indexOf SP (raw.drop n) with
+       | none => some { tags, source, command := toUpperAscii (raw.drop n), params := [] }
+       | some k => some { tags, source, command := toUpperAscii ((raw.drop n).take k),
+                          params := parseParams ((raw.drop n).drop (k + 1)) }) := by
+  unfold goTail
+  rw [sliceI_end raw n hn]
+  simp only [bind, Except.bind, pure, Except.pure]
+  cases h : indexOf SP (raw.drop n) with
+  | none =>
+    have : (n : Int) + -1 < n := by omega
+    simp [indexByteI, h, this]
+  | some k =>
+    have hk := indexOf_lt h
+    simp at hk
+    have hnot : ¬ ((n : Int) + (k : Int) < n) := by omega
+    simp only [indexByteI, h, hnot, if_false]
+    have e1 : (n : Int) + (k : Int) = ((n + k : Nat) : Int) := by omega
+    have e2 : (n : Int) + (k : Int) + 1 = ((n + k + 1 : Nat) : Int) := by omega
+    rw [e2, e1, sliceI_nat raw n (n + k) (by omega) (by omega)]
+    have hsp : raw[n + k + 1 + 0 - 1]? = some SP := by
+      have := indexOf_get h
+      rw [List.getElem?_drop] at this
+      rw [← this]; congr 1
+    have hloop := loop_eq raw (n + k + 1) (by omega) (raw.length + 1) 0 SP (by omega) hsp (by omega)
+    simp only [Int.natCast_zero] at hloop ⊢
+    rw [hloop]
+    simp only [Nat.add_sub_cancel_left, Nat.add_zero, decide_true]
+    have hps : List.drop (k + 1) (List.drop n raw) = raw.drop (n + k + 1) := by
+      rw [List.drop_drop, Nat.add_assoc]
+    rw [hps]
+    unfold parseParams findTrailer
+    cases hf : findTrailerAux (raw.drop (n + k + 1)) true 0 with
+    | none =>
+      simp only [Option.map_none]
+      rw [sliceI_end raw (n + k + 1) (by omega)]
+    | some p =>
+      have hp := (findTrailerAux_bound _ _ _ _ hf).2
+      simp at hp
+      simp only [Option.map_some]
+      have e3 : ((n + k + 1 : Nat) : Int) + Int.ofNat p + 1 = ((n + k + 1 + p + 1 : Nat) : Int) := by
+        simp only [Int.ofNat_eq_natCast]; omega
+      have hd : List.drop (p + 1) (List.drop (n + k + 1) raw) = raw.drop (n + k + 1 + p + 1) := by
+        rw [List.drop_drop, Nat.add_assoc (n + k + 1) p 1]
+      rw [e3, sliceI_end raw (n + k + 1 + p + 1) (by omega), hd]
+      by_cases hp0 : p > 0
+      · have hgt : ((n + k + 1 : Nat) : Int) + Int.ofNat p > ((n + k + 1 : Nat) : Int) := by
+          simp only [Int.ofNat_eq_natCast]; omega
+        have e4 : ((n + k + 1 : Nat) : Int) + Int.ofNat p - 1 = ((n + k + 1 + (p - 1) : Nat) : Int) := by
+          simp only [Int.ofNat_eq_natCast]; omega
+        rw [if_pos hgt, if_pos hp0, e4, sliceI_nat raw (n + k + 1) (n + k + 1 + (p - 1)) (by omega) (by omega)]
+        simp only [Nat.add_sub_cancel_left]
+      · have hgt : ¬ (((n + k + 1 : Nat) : Int) + Int.ofNat p > ((n + k + 1 : Nat) : Int)) := by
+          simp only [Int.ofNat_eq_natCast]; omega
+        rw [if_neg hgt, if_neg hp0]
+
+
+/-- What `parseEvent` does once tags are known and the line is `raw`. -/
+def afterTags (tags : Option Tags) (raw : Bytes) : Option Event :=
+  match cutSection COLON raw with
+  | none => none
+  | some (srcRaw, rest) =>
+    match indexOf SP rest with
+    | none => some { tags, source := srcRaw.map parseSource, command := toUpperAscii rest, params := [] }
+    | some k => some { tags, source := srcRaw.map parseSource, command := toUpperAscii (rest.take k),
+                       params := parseParams (rest.drop (k + 1)) }
+
+theorem goTail_eq0 (tags : Option Tags) (source : Option Source) (raw : Bytes) :
+    goTail tags source raw 0 = .ok
+      (match indexOf SP raw with
+       | none => some { tags, source, command := toUpperAscii raw, params := [] }
+       | some k => some { tags, source, command := toUpperAscii (raw.take k),
+                          params := parseParams (raw.drop (k + 1)) }) := by
+  have := goTail_eq tags source raw 0 (Nat.zero_le _)
+  simpa using this
+
+theorem goSrc_eq (tags : Option Tags) (raw : Bytes) : goSrc tags raw = .ok (afterTags tags raw) := by
+  unfold goSrc afterTags cutSection
+  cases raw with
+  | nil =>
+    simp only [ne_eq, not_true_eq_false, if_false, List.head?_nil]
+    rw [goTail_eq0]
+    simp
+  | cons x xs =>
+    have h0 : atI (x :: xs) 0 = .ok x := atI_nat (x :: xs) 0 x (by simp)
+    simp only [ne_eq, reduceCtorEq, not_false_eq_true, if_true, h0, bind, Except.bind, pure, Except.pure,
+      List.head?_cons, Option.some.injEq]
+    by_cases hx : x = COLON
+    · simp only [hx, if_true]
+      cases h : indexOf SP (COLON :: xs) with
+      | none =>
+        have : ((-1 : Int) < 2) := by omega
+        simp [indexByteI, h]
+      | some i =>
+        have hi := indexOf_lt h
+        by_cases h2 : i < 2
+        · have : ((i : Int) < 2) := by omega
+          simp [indexByteI, h, this, h2]
+        · have : ¬ ((i : Int) < 2) := by omega
+          simp only [indexByteI, h, this, h2, if_false]
+          have e1 : sliceI (COLON :: xs) 1 (i : Int) = _ :=
+            sliceI_nat (COLON :: xs) 1 i (by omega) (by omega)
+          have e2 : (i : Int) + 1 = ((i + 1 : Nat) : Int) := by omega
+          rw [e1, e2]
+          simp only []
+          rw [goTail_eq _ _ _ (i + 1) (by omega)]
+          simp only [List.drop_take, Option.map_some]
+    · simp only [hx, if_false]
+      rw [goTail_eq0]
+      simp
+
+
+theorem parseEvent_eq_afterTags (raw0 : Bytes) :
+    parseEvent raw0 =
+      (if (trimCRLF raw0).length < 2 then none
+       else match cutSection AT (trimCRLF raw0) with
+         | none => none
+         | some (tagsRaw, raw) => afterTags (tagsRaw.map parseTags) raw) := by
+  rfl
+
+theorem goTop_eq (raw0 : Bytes) : goTop raw0 = .ok (parseEvent raw0) := by
+  rw [parseEvent_eq_afterTags]
+  unfold goTop
+  simp only []
+  generalize trimCRLF raw0 = raw
+  by_cases hlen : raw.length < 2
+  · simp [hlen, pure, Except.pure]
+  · simp only [hlen, if_false]
+    cases raw with
+    | nil => simp at hlen
+    | cons x xs =>
+      have h0 : atI (x :: xs) 0 = .ok x := atI_nat (x :: xs) 0 x (by simp)
+      simp only [h0, bind, Except.bind, pure, Except.pure]
+      unfold cutSection
+      simp only [List.head?_cons, Option.some.injEq]
+      by_cases hx : x = AT
+      · simp only [hx, if_true]
+        cases h : indexOf SP (AT :: xs) with
+        | none => simp [indexByteI, h]
+        | some i =>
+          have hi := indexOf_lt h
+          by_cases h2 : i < 2
+          · have : ((i : Int) < 2) := by omega
+            simp [indexByteI, h, this, h2]
+          · have : ¬ ((i : Int) < 2) := by omega
+            simp only [indexByteI, h, this, h2, if_false]
+            have e1 : sliceI (AT :: xs) 1 (i : Int) = _ :=
+              sliceI_nat (AT :: xs) 1 i (by omega) (by omega)
+            have e2 : (i : Int) + 1 = ((i + 1 : Nat) : Int) := by omega
+            rw [e1, e2, sliceI_end _ (i + 1) (by omega)]
+            simp only []
+            rw [goSrc_eq]
+            simp only [List.drop_take, Option.map_some]
+      · simp only [hx, if_false]
+        rw [goSrc_eq]
+        simp
+
 
 /-- The index-faithful model (every Go slice/index expression checked) never faults, and computes
     exactly the list-functional parser. -/
 theorem parseEventGo_eq (raw : Bytes) : parseEventGo raw = .ok (parseEvent raw) := by
-  sorry
+  rw [parseEventGo_eq_goTop, goTop_eq]
 
 end Girc.Proofs.ParseTotal
